@@ -237,7 +237,7 @@ def exits(rng):
     raises, a step returning a non-event, several invocations racing to return StopEvent, user cancellation at a random
     moment, the workflow timeout, and a body that publishes while it is being cancelled."""
     mode = rng.choice(["result", "step_fail", "policy_raises", "pred_raises", "other_return", "stop_race", "cancel",
-                       "timeout", "cancel", "timeout", "finally_publish", "user_policy_object"])
+                       "timeout", "cancel", "timeout", "finally_publish", "user_policy_object", "stop_race_publish"])
     n = rng.choice([1, 2, 3])
     k = rng.choice([1, 2, 3])
     pol = None
@@ -262,6 +262,11 @@ def exits(rng):
         timeout = 40.0
     elif mode == "stop_race":
         bscript = [("gate", "w"), ("return", StopEvent)]
+    elif mode == "stop_race_publish":
+        # the first invocation to finish returns StopEvent while its siblings are still running; they publish while
+        # being cancelled
+        n, k = rng.choice([2, 3]), rng.choice([2, 3])
+        bscript = [("on_cancel_publish", U6), ("gate", "w"), ("return", StopEvent)]
     elif mode == "timeout":
         timeout = rng.choice([2.0, 5.0])
     elif mode == "finally_publish":
@@ -316,6 +321,89 @@ def countflow(rng):
     })
     spec["count_n"], spec["fail_until"] = n, f
     return spec, [], dict(policy=rng.choice(["random", "lifo", "fifo"]))
+
+
+def sameretries(rng):
+    """two (or three) invocations of the SAME step waiting out retry delays that end at different times: start sends m
+    T1 to `b_work` (m workers); invocation i works i*s seconds, fails once, is retried d seconds later (s < d, so every
+    retry is already scheduled when the first one fires) and returns T2; `c_gather` collects m T2 -> Stop.  Between
+    two retries nothing is queued or running, and the only pending work is the later retry of the same step."""
+    m = rng.choice([2, 2, 3])
+    s_, d = rng.choice([(0.5, 3.0), (1.0, 4.0), (1.0, 6.0)])
+    spec = dict(steps={
+        "a_start": dict(accepts=[StartEvent], returns=[T1, type(None)], num_workers=1,
+                        script=[("send", T1, m, None), ("return", None)]),
+        "b_work": dict(accepts=[T1], returns=[T2], num_workers=m,
+                       policy=rp.retry_policy(wait=rp.wait_fixed(d), stop=rp.stop_after_attempt(3)),
+                       script=[("sleep_first", s_), ("fail_until", 1, "value"), ("return", T2)]),
+        "c_gather": dict(accepts=[T2], returns=[StopEvent, type(None)], num_workers=1,
+                         script=[("collect", [T2] * m, None), ("return", StopEvent)]),
+    })
+    spec["retry_delay"] = d
+    return spec, [], dict(policy="random", time_bias=0.5)
+
+
+def collectwait(rng):
+    """a collecting step that, having received a full set from collect_events, suspends in wait_for_event in the same
+    invocation: start sends n T2 to `c_gather` (1 worker), which collects n T2, then waits for HR(k=7); when the
+    response arrives the invocation is replayed and must get the same full set again from collect_events (the buffer is
+    deleted only when the step completes), then returns StopEvent."""
+    n = rng.choice([1, 2, 3])
+    spec = dict(steps={
+        "a_start": dict(accepts=[StartEvent], returns=[T2, type(None)], num_workers=1,
+                        script=[("send", T2, n, None), ("return", None)]),
+        "c_gather": dict(accepts=[T2], returns=[StopEvent, type(None)], num_workers=1,
+                         script=[("gate", "c"), ("collect", [T2] * n, None), ("wait", HR, {"k": 7}, None, "w1", None, "none"),
+                                 ("return", StopEvent)]),
+    }, timeout=300.0)
+    spec["collect_n"], spec["collect_rounds"], spec["collect_k"] = n, 1, 1
+    spec["collect_then_fail"] = True     # same statement: a later attempt of the invocation gets the same set again
+    spec["collect_then_wait"] = True
+
+    def hr(handler, rec):
+        # the response is sent by a timer 50 virtual seconds later; time only passes once every gate has been opened
+        # (time_bias 0), i.e. when the collecting invocation already waits
+        import asyncio
+
+        def send():
+            rec.ev("external", ev="HR", k=7)
+            handler.ctx.send_event(HR(k=7))
+        asyncio.get_running_loop().call_later(50.0, send)
+    hr.label = "HR(k=7) in 50 s"
+    return spec, [hr], dict(policy="fifo", time_bias=0.0)
+
+
+def waitflow(rng):
+    """deterministic workflow for snapshot/resume with WAITING steps: start sends n T1; each `b_wait` invocation parks in
+    wait_for_event(HR, requirements={k: <its event id>}), records the tag of the event that resolved it in the state
+    store (`got<i>`), increments `n` and returns T2; `c_gather` collects n T2 -> StopEvent("done").  Externals: for each
+    waiter the matching HR(k=i, tag="right"), some of them preceded by an HR of the awaited type that does NOT meet any
+    requirement (k=900+i, tag="wrong")."""
+    n = rng.choice([1, 2, 3])
+    spec = dict(steps={
+        "a_start": dict(accepts=[StartEvent], returns=[T1, type(None)], num_workers=1,
+                        script=[("send", T1, n, None), ("return", None)]),
+        "b_wait": dict(accepts=[T1], returns=[T2], num_workers=n,
+                       script=[("wait", HR, {"k": "$i"}, None, None, None, "none", "got"), ("incr", "n"), ("return", T2)]),
+        "c_gather": dict(accepts=[T2], returns=[StopEvent, type(None)], num_workers=1,
+                         script=[("collect", [T2] * n, None), ("return_const", "done")]),
+    })
+    spec["count_n"] = n
+
+    def mk(k, tag):
+        def f(handler, rec):
+            rec.ev("external", ev="HR", k=k, tag=tag)
+            handler.ctx.send_event(HR(k=k, tag=tag))
+        f.label = "HR(k=%d,%s)" % (k, tag)
+        return f
+    ids = list(range(1, n + 1))
+    rng.shuffle(ids)
+    ext = []
+    for i in ids:
+        if rng.random() < 0.7:
+            ext.append(mk(900 + i, "wrong"))
+        ext.append(mk(i, "right"))
+    return spec, ext, dict(policy="random")
 
 
 # ---- templates for the runner differential (suites/runnerdiff.py): every body except the start step begins with a
